@@ -102,8 +102,12 @@ def _task(t):
     dis = []
     name = O.expr_str(prog["expr"], prog["kinds"])
     wide_div = n > 6 and prog["expr"][0] == "op" and prog["expr"][1] in ("floordiv", "mod", "divmod", "truediv", "pow", "lshift", "rshift")
-    for vec in E.input_vectors(prog, vals):
-        if wide_div and len(vec) > 1 and abs(vec[1]) > 8:
+    vectors = E.input_vectors(prog, vals)
+    if n > 6 and prog["expr"][0] == "op" and prog["expr"][1] in ("lshift", "rshift") and prog["kinds"][1:] == ["K"]:
+        # public shift counts: EVERY count 0..n+1 (byte-aligned counts, n-1, n, n+1 ...), first operand from the lattice
+        vectors = [(a, c) for a in vals for c in range(0, n + 2)]
+    for vec in vectors:
+        if wide_div and len(vec) > 1 and abs(vec[1]) > (n + 1 if prog["expr"][1] in ("lshift", "rshift") else 8):
             # every remainder below the divisor is a witness (known finding KF-C02-quotient): the solution
             # set grows with the divisor, and exponents / shift counts grow the values; wide bitlengths keep
             # these second operands small and put the width on the first one
